@@ -240,6 +240,94 @@ Proof.
   pose proof B_pos. nia.
 Qed.
 
+(* ---------------------------------------------------------------------------------------- *)
+(* "no thread can take a step" implies Sys.calm: the second conjunct of murun's tick condition is the real one *)
+Ltac mv ev0 Hex := exists ev0; eexists; split; [unfold step; rewrite Hex|reflexivity].
+
+Lemma worker_moves_or_calm s i w : InvM c s -> exited s = None -> nth_error (ws s) i = Some w -> calm_pc w = false -> can_move c s.
+Proof.
+  intros I Hex Hn Hc. unfold calm_pc in Hc. destruct (pc w) eqn:Ep; try discriminate Hc.
+  - mv (EStart i) Hex. rewrite Hn, Ep. reflexivity.
+  - eapply want1; eauto. intros Hm. unfold step. rewrite Hex, Hn, Hm, Ep. discriminate.
+  - mv (EUnlock1 i) Hex. rewrite Hn, Ep. reflexivity.
+  - mv (EConnBegin i) Hex. rewrite Hn, Ep. reflexivity.
+  - destruct (eintr w) eqn:Ee; [|discriminate Hc]. destruct (behof c i) eqn:Eb.
+    + mv (EConnOk i) Hex. rewrite Hn, Ep, Eb. reflexivity.
+    + mv (EConnRefused i) Hex. rewrite Hn, Ep, Eb. reflexivity.
+    + mv (EConnIntr i) Hex. rewrite Hn, Ep, Eb, Ee. reflexivity.
+    + mv (EConnOk i) Hex. rewrite Hn, Ep, Eb. reflexivity.
+  - eapply want1; eauto. intros Hm. unfold step. rewrite Hex, Hn, Hm, Ep. discriminate.
+  - mv (EUnlock1 i) Hex. rewrite Hn, Ep. reflexivity.
+  - destruct (eintr w) eqn:Ee; [|discriminate Hc].
+    exists (EPollIntr i). unfold step. rewrite Hex, Hn, Ep, Ee.
+    destruct ((0 <? tcmd c) && (conn w + tcmd c <? now s)); eexists; split; reflexivity.
+  - destruct (reported w) eqn:Er.
+    + mv (ERSigW i) Hex. rewrite Hn, Ep, Er. reflexivity.
+    + mv (EReport i) Hex. rewrite Hn, Ep, Er. reflexivity.
+  - eapply want1; eauto. intros Hm. unfold step. rewrite Hex, Hn, Hm, Ep. discriminate.
+  - mv (EUnlock1 i) Hex. rewrite Hn, Ep. reflexivity.
+  - mv (EDestroy i) Hex. rewrite Hn, Ep. reflexivity.
+  - destruct (m0 s) eqn:Em.
+    + mv (ELock0 i) Hex. rewrite Hn, Em, Ep. reflexivity.
+    + eapply m0_holder_moves; eauto; congruence.
+    + eapply m0_holder_moves; eauto; congruence.
+    + eapply m0_holder_moves; eauto; congruence.
+  - mv (ESignal i) Hex. rewrite Hn, Ep. reflexivity.
+  - mv (EUnlock0 i) Hex. rewrite Hn, Ep. reflexivity.
+Qed.
+
+(* the watchdog's scan position always names a slot *)
+Definition InvK (s : gst) : Prop := forall j, wd s = WdKilling j -> (j < length (ws s))%nat.
+
+Lemma scan_in_range s1 k j : wd_scan c s1 k = WdKilling j -> (j < length (ws s1))%nat.
+Proof.
+  unfold wd_scan. destruct (first_from (killable c s1) (ws s1) k) as [j'|] eqn:E; [|discriminate].
+  intros H. inversion H; subst. destruct (first_from_some _ _ _ _ E) as (_ & (w1 & Hw1 & _) & _). eapply nth_error_lt; eauto.
+Qed.
+
+Lemma invK_step s e s' : InvK s -> step c s e = Some s' -> InvK s'.
+Proof.
+  intros K H. unfold InvK in *.
+  inv_step H; cbn [wd ws setw setw1 setd setsp]; rewrite ?updw_length, ?map_length; try exact K.
+  all: intros j Hj; apply scan_in_range in Hj; cbn [ws setw] in Hj; rewrite ?updw_length in Hj; exact Hj.
+Qed.
+
+Lemma invK_run s es s' : InvK s -> run c s es = Some s' -> InvK s'.
+Proof.
+  revert s. induction es as [|e r IH]; intros s K Hr; cbn [run] in Hr; [inversion Hr; subst; exact K|].
+  destruct (step c s e) as [s1|] eqn:E; [|discriminate]. eapply IH; [eapply invK_step; eauto|exact Hr].
+Qed.
+
+Lemma blocked_calm s : InvM c s -> InvK s -> exited s = None -> ~ can_move c s -> calm s = true.
+Proof.
+  intros I K Hex Hb. unfold calm. destruct (wd s) as [u|j] eqn:Ew.
+  - destruct (now s <? u) eqn:Eu.
+    + cbn [andb]. apply forallb_forall. intros w Hin. destruct (calm_pc w) eqn:Ec; [reflexivity|].
+      exfalso. apply Hb. apply In_nth_error in Hin. destruct Hin as [i Hn]. eapply worker_moves_or_calm; eauto.
+    + exfalso. apply Hb. mv EWdWake Hex. rewrite Ew. destruct (u <=? now s) eqn:E2; [reflexivity|lia].
+  - exfalso. apply Hb. specialize (K _ Ew). destruct (nth_error (ws s) j) as [w|] eqn:En.
+    + mv (EWdKill j) Hex. rewrite Ew, Nat.eqb_refl, En. reflexivity.
+    + apply nth_error_None in En. lia.
+Qed.
+
+(* maximal progress in its plain form: the clock ticks only when no thread can take a step *)
+Inductive mprun : gst -> list ev -> gst -> Prop :=
+| mp_nil s : mprun s [] s
+| mp_snoc s es s1 e s2 : mprun s es s1 -> step c s1 e = Some s2 -> (e = ETick -> ~ can_move c s1) -> mprun s (es ++ [e]) s2.
+
+Lemma mprun_murun es s : mprun (init c t0) es s -> murun (init c t0) es s.
+Proof.
+  remember (init c t0) as s0 eqn:E0. induction 1 as [|s0 es s1 e s2 U IH Hs Ht]; subst; [constructor|].
+  specialize (IH eq_refl). econstructor; [exact IH|exact Hs|]. intros He. split; [|exact (Ht He)].
+  pose proof (step_exited_none _ _ _ Hs) as Hex. pose proof (urun_run _ _ _ _ (murun_urun _ _ _ IH)) as R.
+  apply blocked_calm; [| |exact Hex|exact (Ht He)].
+  - eapply invM_run; [| |exact Hex]; [|exact R]. apply invM_init. exact Hf.
+  - eapply invK_run; [|exact R]. intros j Hj. cbn in Hj. discriminate.
+Qed.
+
+Theorem clock_bound_mp es s : mprun (init c t0) es s -> now s <= t0 + (2 * Z.of_nat (ntgt c) + 1) * B.
+Proof. intros U. apply (clock_bound es). apply mprun_murun. exact U. Qed.
+
 (* the executable test of "no thread can take a step" used by the trace acceptor is sound *)
 Lemma ev_in_cands s e s' : step c s e = Some s' -> is_env e = false -> In e (cands s).
 Proof.
